@@ -246,7 +246,7 @@ pub const LINK_MUTATIONS: &[&str] = &[
     "speed_nan", "speed_limits_duplicate_pair", "speed_limits_unsorted", "speed_limit_end_inf",
     "speed_param_negative", "speed_param_axles_fractional", "speed_params_duplicate", "speed_param_nan",
     "cat_negative_start", "cat_start_after_end", "cat_negative_power", "cat_overlap", "cat_beyond_length", "cat_power_nan", "cat_disjoint_added",
-    "idx_curr_off_by_one", "idx_curr_zero", "flip_is_self", "flip_not_mutual", "flip_equals_next", "next_not_reciprocated", "prev_not_reciprocated",
+    "idx_curr_off_by_one", "idx_curr_zero", "flip_is_self", "flip_not_mutual", "flip_one_sided_to_lower", "flip_one_sided_to_higher", "flip_claims_paired_lower", "flip_equals_next", "next_not_reciprocated", "prev_not_reciprocated",
     "next_alt_without_next", "prev_alt_without_prev", "coincident_switch_points",
     "flip_out_of_range", "next_out_of_range", "next_alt_out_of_range", "prev_out_of_range", "prev_alt_out_of_range", "ref_u32_max",
     "lockout_out_of_range", "lockout_u32_max",
@@ -313,6 +313,12 @@ pub fn mutate_link(name: &str, n: &mut Vec<LinkM>, k: usize, r: &mut Rng) -> Opt
         "idx_curr_zero" => { l.curr = 0; Reject }
         "flip_is_self" => { l.flip = l.curr; Reject }
         "flip_not_mutual" => { if total < 3 { return None; } let o = other(k, total); if n[o as usize].flip == k as u32 { return None; } n[k].flip = o; Reject }
+        // one-sided reverse-direction claims, towards a lower- and a higher-numbered link, on a base
+        // without reverse twins so that nothing else is violated
+        "flip_one_sided_to_lower" => { if k < 2 || n.iter().any(|x| x.flip != 0) { return None; } let o = 1 + r.below(k - 1) as u32; n[k].flip = o; Reject }
+        "flip_one_sided_to_higher" => { if (k as u32) + 1 >= total || n.iter().any(|x| x.flip != 0) { return None; } let o = k as u32 + 1 + r.below((total - 1 - k as u32) as usize) as u32; n[k].flip = o; Reject }
+        // a third link claims a member of an existing pair (the pair itself stays mutual)
+        "flip_claims_paired_lower" => { if k < 3 || n[k].flip == 0 { return None; } let tw = n[k].flip as usize; let cands: Vec<u32> = (1..k as u32).filter(|o| *o as usize != tw && n[*o as usize].flip != 0).collect(); if cands.is_empty() { return None; } let o = *r.pick(&cands); n[tw].flip = 0; n[k].flip = o; ModelDecides }
         "flip_equals_next" => { if l.next == 0 { return None; } l.flip = l.next; Reject }
         "next_not_reciprocated" => { if total < 3 { return None; } let o = other(k, total); let t = &n[o as usize]; if t.prev == k as u32 || t.prev_alt == k as u32 { return None; } n[k].next = o; Reject }
         "prev_not_reciprocated" => { if total < 3 { return None; } let o = other(k, total); let t = &n[o as usize]; if t.next == k as u32 || t.next_alt == k as u32 { return None; } n[k].prev = o; Reject }
@@ -497,6 +503,13 @@ pub fn run(seed: u64, n_cases: usize, sink: &mut Sink) {
         let (base, tags) = gen_valid(&mut r, multi_cat);
         emit(sink, format!("net{}/valid", t), "valid", &base, format!("x_validate {}", coq_net(&base)), tags.clone(), Some(true), made, "none", 0); made += 1;
         if expressible(&base) { legacy_case(sink, format!("net{}/valid/legacy", t), &base, tags.clone(), Some(true), made, "none"); made += 1; }
+        else {
+            // the same topology (switches, reverse twins, lock-outs) made expressible in the legacy layout
+            let mut lb = base.clone();
+            for (i, l) in lb.iter_mut().enumerate() { if let Some(ss) = l.speed_set.take() { if i > 0 { l.speed_sets = vec![(1, ss)]; } } }
+            let mut tg = tags.clone(); tg.push("legacy:speed_set_dropped".into());
+            legacy_case(sink, format!("net{}/valid/legacy_topology", t), &lb, tg, Some(true), made, "none"); made += 1;
+        }
         link_case(sink, format!("net{}/valid/link1", t), &base[1], tags.clone(), "none", Some(true)); made += 1;
         // every link mutation at every link
         for (mi, m) in LINK_MUTATIONS.iter().enumerate() {
